@@ -12,7 +12,7 @@
 (* verdicts come from layer 1) and the replay goes on from the recorded    *)
 (* state, so the rest of the trace is still checked.                       *)
 (***************************************************************************)
-EXTENDS PipelineOps, NSPositionOps, Json, IOUtils
+EXTENDS PipelineOps, NSPositionOps, Json, IOUtils, TLC
 
 Trace == ndJsonDeserialize(IOEnv.VERIF_TRACE)
 
@@ -35,7 +35,7 @@ Rec == Trace[l]
 Final == IF l' = Len(Trace) + 1 THEN PrintT("STATS " \o ToJson(cnt')) ELSE TRUE
 
 Snap(r) == [st |-> r.st, comp |-> r.comp, nodes |-> r.nodes, edges |-> r.edges, layers |-> r.layers, lh |-> r.lh, exact |-> r.exact,
-            inl |-> r.inl, outl |-> r.outl, pts |-> r.pts]
+            inl |-> r.inl, outl |-> r.outl, pts |-> r.pts, cors |-> r.cors, corsok |-> r.corsok]
 
 \* ---- layer 3 bound to the code: the network-simplex model predicts the layer of every node exactly.
 \* The model runs on the recorded edge list and the recorded in/out lists of every node (their order is what phase 1 left).
@@ -199,6 +199,27 @@ RODrift(c, a, s) ==
                         IN Len(got) = Len(want) /\ \A m \in DOMAIN got : 2 * got[m][1] = want[m][1] /\ 2 * got[m][2] = want[m][2],
                      "L3_RoutePointsAsModelled_" \o c.p5)
 
+\* the spline router's corridors: what phase 5 hands to geom.Shortest for every routed edge (logged through the monitor, recorded
+\* with the stage-5 snapshot in sixths of a unit) is what RouteOps!BuildRects6 builds from the positioned graph of stage 4
+SplineGraph(a) == [RouteGraph(a) EXCEPT !.lh = a.lh] @@
+    [pos |-> [i \in DOMAIN a.nodes |-> a.nodes[i][4]],
+     layers |-> [ly \in DOMAIN a.layers |-> [j \in DOMAIN a.layers[ly] |-> IndexOf(a, a.layers[ly][j])]]]
+RECURSIVE FlattenRects(_)
+FlattenRects(rs) == IF rs = <<>> THEN <<>> ELSE Head(rs) \o FlattenRects(Tail(rs))
+SPApplies(c, a, s) == /\ c.p5 = "splines" /\ s.corsok = 1 /\ Len(s.cors) > 0 /\ a.exact = 1
+                      /\ Len(a.nodes) >= 2 /\ Len(a.nodes) <= POMaxNodes
+                      /\ \A i \in DOMAIN a.edges : LayerOfRef(a, a.edges[i][1]) < LayerOfRef(a, a.edges[i][2])
+SPDrift(c, a, s) ==
+    IF ~SPApplies(c, a, s) THEN {}
+    ELSE LET G == SplineGraph(a)
+             hs == Heads(a)
+             want(j) == LET rn == RO!RouteNodes(G, hs[j])
+                            rs == RO!BuildRects6(G, rn, 2, 10 * Q)
+                        IN IF \E k \in DOMAIN rs : Len(rs[k]) # 4 THEN <<>>
+                           ELSE <<Q * Len(rs)>> \o FlattenRects(rs) \o RO!SplineStart6(G, rn) \o RO!SplineEnd6(G, rn)
+         IN If(Len(s.cors) = Len(hs) /\ \A j \in DOMAIN s.cors : [k \in DOMAIN s.cors[j] |-> Q * s.cors[j][k]] = want(j),
+               "L3_SplineCorridorsAsModelled")
+
 \* the contract of the stage being entered, between the previous snapshot and the recorded one
 Broken(c, a, s) ==
     CASE s.st = 0 -> (IF a.st \in {-1, 6} THEN {} ELSE {"StageOrder"}) \cup Contract0(c, s.comp, s)
@@ -206,7 +227,7 @@ Broken(c, a, s) ==
       [] s.st = 2 -> (IF a.st = 1 THEN Contract2(c, a, s) \cup NSDrift(c, a, s) \cup LPDrift(c, a, s) ELSE {"StageOrder"})
       [] s.st = 3 -> (IF a.st = 2 THEN Contract3(c, a, s) \cup BLDrift(c, a, s) \cup WMDrift(c, a, s) ELSE {"StageOrder"})
       [] s.st = 4 -> (IF a.st = 3 THEN Contract4(c, a, s) \cup PODrift(c, a, s) \cup NPDrift(c, a, s) \cup BKDrift(c, a, s) ELSE {"StageOrder"})
-      [] s.st = 5 -> (IF a.st = 4 THEN Contract5(c, a, s) \cup RODrift(c, a, s) ELSE {"StageOrder"})
+      [] s.st = 5 -> (IF a.st = 4 THEN Contract5(c, a, s) \cup RODrift(c, a, s) \cup SPDrift(c, a, s) ELSE {"StageOrder"})
       [] s.st = 6 -> (IF a.st = 5 THEN Contract6(c, s.comp, a, s) ELSE {"StageOrder"})
       [] OTHER -> {"UnknownStage"}
 
@@ -249,7 +270,8 @@ TraceStage ==
                                                     + (IF s.st = 4 /\ prev.st = 3 /\ BKApplies(call, prev, s) THEN 1 ELSE 0)
                                                     + (IF s.st = 3 /\ prev.st = 2 /\ BLApplies(call, prev, s) THEN 1 ELSE 0)
                                                     + (IF s.st = 3 /\ prev.st = 2 /\ WMApplies(call, prev, s) THEN 1 ELSE 0)
-                                                    + (IF s.st = 5 /\ prev.st = 4 /\ ROApplies(call, prev, s) THEN 1 ELSE 0)]
+                                                    + (IF s.st = 5 /\ prev.st = 4 /\ ROApplies(call, prev, s) THEN 1 ELSE 0)
+                                                    + (IF s.st = 5 /\ prev.st = 4 /\ SPApplies(call, prev, s) THEN 1 ELSE 0)]
     /\ UNCHANGED call /\ Final
 TraceEnd == /\ (IsEvent("Return") \/ IsEvent("Panic") \/ IsEvent("Abort"))
             \* the crossing number reported through the monitor is the crossing number of the recorded orders
